@@ -16,6 +16,12 @@ and the extracted Coq model (coq/OpbText.v, coq/Latex.v):
          decoder rows_of_latex (model) applied to the implementation's text must give
          one row per clause / constraint with that row's literal tokens, \\square for
          the empty clause and \\top only for the empty formula.
+Run first, as a corpus (notes/LARGE_STREAMS.md): huge (OPB / LaTeX of more than 8 and 16 MiB, more than 65536 and
+131072 constraints / rows, constraints of 30000 terms, coefficients up to 2^64: the statement checked directly with
+the harness's own OPB reader and LaTeX row decoder, which are tied to the model's on every small case), thresholds
+(coefficients, degrees, variable numbers, widths, row and page counts, field and name lengths; exact), shapes
+(destinations, file names that merely end in the letters of an extension, `cnfgen -o` / `pbgen -o`, names outside
+ASCII in-process and in a C-locale process) and history (one object edited between renderings).
 Header fields and variable names with line breaks are compared byte for byte too
 (print_opb models the writer after the repair of D4); a text equal to
 print_opb_as_found on such an input is the old defect come back and is reported
@@ -75,6 +81,44 @@ def expected_read(F, is_opb):
     return ['ok', n, [[[[1, l] for l in c], '>=', 1] for c in F]]
 
 
+def expected_read_mem(n, mem, is_opb):
+    """the same, from a snapshot of the rows (mem_constraints)"""
+    if is_opb:
+        return ['ok', n, [[terms, '>=' if op == '>=' else '==', deg] for terms, op, deg in mem]]
+    return ['ok', n, [[[[1, l] for l in c], '>=', 1] for c in mem]]
+
+
+class Rows:
+    """a snapshot of the rows of a formula that iterates and measures like the formula did"""
+
+    def __init__(self, mem):
+        self.mem = mem
+
+    def __len__(self):
+        return len(self.mem)
+
+    def __iter__(self):
+        for r in self.mem:
+            if r and isinstance(r[0], list) and len(r) == 3 and isinstance(r[1], str):
+                yield [tuple(t) for t in r[0]] + [r[1], r[2]]
+            else:
+                yield r
+
+
+def hdr_items(c):
+    return c['hdr_items'] if 'hdr_items' in c else c06.header_items(c['F'])
+
+
+def hdr_model(c):
+    return [[''.join(ch if ord(ch) < 256 else '\xff' for ch in k), ''.join(ch if ord(ch) < 256 else '\xff' for ch in v)] for k, v in hdr_items(c)]
+
+
+def mformula(c):
+    if 'mem' in c:
+        return [Sym('opb' if c['is_opb'] else 'cnf'), c['n'], c['mem']]
+    return model_formula(c['F'], c['is_opb'])
+
+
 def expected_litrows(F, is_opb, tex_labels):
     """the rows of the LaTeX rendering as literals, from the formula in memory only:
     (polarity, variable name) per literal; for constraints the coefficient as shown"""
@@ -117,6 +161,771 @@ def opb_shape_defect1(text, n, m):
         if not rx.match(l):
             return 'line %r is neither a comment nor a constraint' % l[:60]
     return None
+
+
+# --------------------------------------------------------------------------
+# an independent OPB reader and LaTeX row decoder in Python, linear time: the statement of C12 checked directly on
+# outputs of several megabytes (the character-level model needs about 100 microseconds per row).  On every small case
+# of the run they are compared with the model's parse_opb / latex_litrows.
+# --------------------------------------------------------------------------
+import re
+_SINT = re.compile(r'^[+-]?[0-9]+$')
+_PVAR = re.compile(r'^(~?)x([0-9]+)$')
+_FIRST = re.compile(r'^\* #variable= ([0-9]+) #constraint= ([0-9]+)$')
+
+
+def py_parse_opb(text):
+    """['ok', n, [[terms, '>=' | '==', degree] ...]] or ['err', reason]: the counts line, '*' comments, one constraint per line
+    made of `coefficient literal` pairs, a relation and a degree"""
+    if text.endswith('\n'):
+        text = text[:-1]
+    lines = text.split('\n')
+    m = _FIRST.match(lines[0]) if lines else None
+    if not m:
+        return ['err', 'first line %r' % (lines[0][:60] if lines else None)]
+    n, declared = int(m.group(1)), int(m.group(2))
+    cons = []
+    for ln in lines[1:]:
+        if ln[:1] == '*':
+            continue
+        toks = ln.split()
+        if toks and toks[-1] == ';':
+            toks.pop()
+        if len(toks) < 2 or len(toks) % 2 or toks[-2] not in ('>=', '=') or not _SINT.match(toks[-1]):
+            return ['err', 'line %r is neither a comment nor a constraint' % ln[:60]]
+        terms = []
+        for i in range(0, len(toks) - 2, 2):
+            v = _PVAR.match(toks[i + 1])
+            if not _SINT.match(toks[i]) or not v or not 1 <= int(v.group(2)) <= n:
+                return ['err', 'term %r %r' % (toks[i][:30], toks[i + 1][:30])]
+            terms.append([int(toks[i]), -int(v.group(2)) if v.group(1) else int(v.group(2))])
+        cons.append([terms, '>=' if toks[-2] == '>=' else '==', int(toks[-1])])
+    if len(cons) != declared:
+        return ['err', '%d constraints, %d declared' % (len(cons), declared)]
+    return ['ok', n, cons]
+
+
+def py_decode_lit(tok):
+    r"""{name} -> [True, name];  \overline{name} and {\overline{base}rest} -> [False, name]"""
+    tok = tok.strip()
+    if tok.startswith('{\\overline{') and tok.endswith('}'):
+        inner = tok[len('{\\overline{'):-1]
+        depth, j = 0, -1
+        for i, ch in enumerate(inner):        # the brace that closes \overline{ (names with balanced braces)
+            if ch == '{':
+                depth += 1
+            elif ch == '}':
+                if depth == 0:
+                    j = i
+                    break
+                depth -= 1
+        return None if j < 0 else [False, inner[:j] + inner[j + 1:]]
+    if tok.startswith('\\overline{') and tok.endswith('}'):
+        return [False, tok[len('\\overline{'):-1]]
+    if tok.startswith('{') and tok.endswith('}'):
+        return [True, tok[1:-1]]
+    return None
+
+
+def balanced(name):
+    """the part of the name that _print_latex puts inside \\overline{...} (up to the first _ or ^ after position 0) has no brace:
+    then the first closing brace ends it, whatever the rest of the name is"""
+    sp = [i for i in (name.find('_'), name.find('^')) if i > 0]
+    base = name[:min(sp)] if sp else ''
+    return '{' not in base and '}' not in base
+
+
+_BLOCK = re.compile(r'\\begin\{align\}(.*?)\n\\end\{align\}', re.S)
+_CONSTRAINT = re.compile(r'^(.*) (\\geq|=) (-?[0-9]+)$', re.S)
+_COEF = re.compile(r'^([0-9]*)(.*)$', re.S)
+
+
+def py_latex_rows(text, is_opb):
+    """[top?, rows, sizes of the align blocks]; rows in the shape of expected_litrows (None for a row that does not decode)"""
+    top, rows, sizes = False, [], []
+    for b in _BLOCK.findall(text):
+        if b == '\n   \\top':
+            top = True
+            continue
+        if not b.startswith('\n&'):
+            rows.append(None)
+            continue
+        k = 0
+        for row in b[2:].split(' \\\\\n&'):
+            k += 1
+            r = row.strip()
+            if is_opb:
+                m = _CONSTRAINT.match(r)
+                if not m:
+                    rows.append(None)
+                    continue
+                terms = []
+                if m.group(1) != '0':
+                    for t in m.group(1).split(' + '):
+                        c = _COEF.match(t)
+                        terms.append([c.group(1), py_decode_lit(c.group(2))])
+                rows.append(None if any(t[1] is None for t in terms) else ['constraint', terms, '>=' if m.group(2) == '\\geq' else '==', m.group(3)])
+                continue
+            if r.startswith('\\land'):
+                r = r[len('\\land'):].strip()
+            if r == '\\square':
+                rows.append(['square'])
+                continue
+            if r.startswith('\\left(') and r.endswith('\\right)'):
+                r = r[len('\\left('):-len('\\right)')]
+            lits = [py_decode_lit(t) for t in r.split(' \\lor ')]
+            rows.append(None if any(l is None for l in lits) else ['clause', lits])
+        sizes.append(k)
+    return [top, rows, sizes]
+
+
+# --------------------------------------------------------------------------
+# huge: more than 8 / 16 MiB of OPB or LaTeX, more than 65536 / 131072 constraints or rows, lines of more than 131072 characters
+# --------------------------------------------------------------------------
+MIB = 1 << 20
+
+
+def direct_opb(ctx, descr, text, n, mem, is_opb):
+    """the OPB half of C12 on one text, without the model"""
+    got = py_parse_opb(text)
+    want = expected_read_mem(n, mem, is_opb)
+    defect = opb_shape_defect(text, n, len(mem))
+    if got == want and defect is None:
+        return True
+    ctx.disagreements_checked += 1
+    where = defect
+    if where is None and got[0] == 'ok':
+        if got[1] != n:
+            where = '%d variables declared, the formula has %d' % (got[1], n)
+        elif len(got[2]) != len(mem):
+            where = '%d constraints read, %d in memory' % (len(got[2]), len(mem))
+        else:
+            i = next(i for i, (a, b) in enumerate(zip(got[2], want[2])) if a != b)
+            where = 'constraint %d reads %s, in memory %s' % (i + 1, str(got[2][i])[:160], str(want[2][i])[:160])
+    elif where is None:
+        where = got[1]
+    ctx.violation('counterexample', 'the OPB text does not denote the formula in memory: %s' % where,
+                  dict(input=descr, text_length=len(text), text_start=text[:300], text_end=text[-200:], shape=defect), True,
+                  site='to_opb_file', cls='shape' if defect else 'denotation')
+    return False
+
+
+def direct_latex(ctx, descr, text, mem, is_opb, tex_labels, document):
+    """the LaTeX half of C12 on one text, without the model: one row per clause / constraint in order with that row's literals
+    (polarity, name), coefficients, relation and degree; \\top only for the empty formula; pages of 35 rows in a document"""
+    want = expected_litrows(Rows(mem), is_opb, tex_labels)
+    body = text
+    if document:
+        a, b = text.find('\\begin{align}'), text.rfind('\\end{document}')
+        body = text[a:b] if 0 <= a < b else ''
+    top, rows, sizes = py_latex_rows(body, is_opb)
+    why = None
+    if top != (len(mem) == 0):
+        why = '\\top %s' % ('is shown although the formula has rows' if top else 'is missing for the empty formula')
+    elif len(rows) != len(want):
+        why = '%d rows, the formula has %d' % (len(rows), len(want))
+    elif rows != want:
+        i = next(i for i, (a, b) in enumerate(zip(rows, want)) if a != b)
+        why = 'row %d shows %s, in memory %s' % (i + 1, str(rows[i])[:200], str(want[i])[:200])
+    elif document and sizes != [35] * (len(want) // 35) + ([len(want) % 35] if len(want) % 35 else []):
+        why = 'the align blocks do not have 35 rows each: %r...' % (sizes[:5],)
+    elif not document and len(sizes) > 1:
+        why = 'the snippet has %d align blocks' % len(sizes)
+    if why is None:
+        return True
+    ctx.disagreements_checked += 1
+    ctx.violation('counterexample', 'the LaTeX %s does not show the formula in memory: %s' % ('document' if document else 'rows', why),
+                  dict(input=descr, text_length=len(text), text_start=body[:300], text_end=body[-200:]), True,
+                  site='to_latex_document' if document else 'to_latex', cls='rows' if 'rows' in why or 'top' in why else 'literals')
+    return False
+
+
+def scrambled_constraints(seed, m, w, nvars, coefs):
+    """m constraints of w terms: an arithmetic scramble (fast to build); coefs: the pool of coefficients"""
+    a = (seed | 1) % 1000003
+    k = len(coefs)
+    out = []
+    for i in range(m):
+        terms = [(coefs[(a * i + j) % k], (1 + (a * (i * w + j) + 31 * j) % nvars) * (1 if ((i + j) * a >> 2) & 1 else -1)) for j in range(w)]
+        out.append(terms + ['>=' if (i * a >> 1) & 1 else '==', (i * 7919) % 1000 - 300])
+    return out
+
+
+COEFS = [1, 2, 3, 10 ** 6, 10 ** 6 + 1, 2 ** 31 - 1, 2 ** 31, 2 ** 32 + 5, 2 ** 40, 10 ** 18, 10 ** 18 + 7, 2 ** 64, 7]
+
+
+def huge_case(ctx, cnfgen, label, make, is_opb, opb_vias, latex, header=True, names=False, both_docs=False):
+    F = make()
+    n = F.number_of_variables()
+    mem = mem_constraints(F, is_opb)
+    tex_labels = list(F.all_variable_labels(default_label_format='x_{}')) if latex else None
+    for via in opb_vias:
+        path = c06.tmp_path('huge.opb')
+        descr = dict(formula=label, kind='OPB' if is_opb else 'CNF', n=n, rows=len(mem), format='opb', export_header=header, export_varnames=names, via=via)
+        ctx.count('huge-opb', (label, via), True, sample=descr)
+        try:
+            text = c06.write_via(F, via, header, names, path, fmt='opb')
+        except Exception as e:  # noqa
+            ctx.disagreements_checked += 1
+            ctx.violation('counterexample', 'writing a large formula to OPB (%s) raised %s' % (via, type(e).__name__),
+                          dict(input=descr, implementation=[type(e).__name__, str(e)[:160]]), True, site='to_opb_file', cls='raises-' + type(e).__name__)
+            continue
+        lines = text.count('\n')
+        ctx.tally('huge output size', 'opb ' + ('>16MiB' if len(text) > 16 * MIB else '>8MiB' if len(text) > 8 * MIB else '>1MiB' if len(text) > MIB else '<=1MiB'))
+        ctx.tally('huge output lines', 'opb ' + ('>131072' if lines > 131072 else '>65536' if lines > 65536 else '<=65536'))
+        ctx.tally('huge via', via)
+        direct_opb(ctx, descr, text, n, mem, is_opb)
+    for kind in latex:
+        descr = dict(formula=label, kind='OPB' if is_opb else 'CNF', n=n, rows=len(mem), format='latex', output=kind)
+        ctx.count('huge-latex', (label, kind), True, sample=descr)
+        try:
+            if kind == 'snippet':
+                text = F.to_latex()
+            else:
+                text = c06.write_via(F, kind, header, False, c06.tmp_path('huge.tex'), fmt='latex', extra_text='extra & text\n')
+        except Exception as e:  # noqa
+            ctx.disagreements_checked += 1
+            ctx.violation('counterexample', 'writing a large formula to LaTeX (%s) raised %s' % (kind, type(e).__name__),
+                          dict(input=descr, implementation=[type(e).__name__, str(e)[:160]]), True,
+                          site='to_latex' if kind == 'snippet' else 'to_latex_document', cls='raises-' + type(e).__name__)
+            continue
+        ctx.tally('huge output size', 'latex ' + ('>16MiB' if len(text) > 16 * MIB else '>8MiB' if len(text) > 8 * MIB else '>1MiB' if len(text) > MIB else '<=1MiB'))
+        ctx.tally('huge output lines', 'latex ' + ('>131072' if text.count('\n') > 131072 else '>65536' if text.count('\n') > 65536 else '<=65536'))
+        direct_latex(ctx, descr, text, mem, is_opb, tex_labels, kind != 'snippet')
+
+
+def run_huge(ctx, cnfgen, quick):
+    import time
+    from cnfgen.formula.opb import OPB
+    CNF = cnfgen.CNF
+    t0 = time.time()
+    seed = ctx.rng.randrange(1 << 30)
+
+    def opb_of(m, w, nvars, coefs=COEFS):
+        def f():
+            F = OPB()
+            F.update_variable_number(nvars)
+            F.add_constraints_from(scrambled_constraints(seed, m, w, nvars, coefs), check=False)
+            return F
+        return f
+
+    def cnf_of(m, w, lo, hi):
+        return lambda: CNF(c06.scrambled_clauses(seed, m, w, lo, hi))
+
+    def one_row(w):
+        def f():
+            F = OPB()
+            F.add_constraint([(COEFS[i % len(COEFS)], (-1) ** i * (1 + (i * 7) % w)) for i in range(w)] + ['>=', 10 ** 18])
+            F.add_constraint([(1, 1), '==', 1])
+            return F
+        return f
+
+    def long_fields(k, j):
+        def f():
+            F = OPB(description='D' * k)
+            F.new_variable('N' * j)
+            F.new_variable('y')
+            F.add_constraint([(2 ** 40, 1), (10 ** 6, -2), '>=', 2 ** 31])
+            return F
+        return f
+    VIAS = c06.VIAS
+    if quick:
+        # > 131072 constraints, > 8 MiB of OPB; > 65536 rows of LaTeX in a snippet
+        huge_case(ctx, cnfgen, '140000 constraints of 3 terms, coefficients up to 2^64', opb_of(140000, 3, 100000), True, ('name',), [])
+        # > 65536 clauses as OPB (> 16 MiB) through the standard output, and as a LaTeX document (> 65536 rows, 35 per page)
+        huge_case(ctx, cnfgen, '66000 clauses of 20 literals below 3000000', cnf_of(66000, 20, 2990000, 3000000), False, ('stdout',), [], header=False)
+        huge_case(ctx, cnfgen, '70000 constraints of 2 terms', opb_of(70000, 2, 500), True, (), ['snippet', 'name-by-extension'])
+        huge_case(ctx, cnfgen, 'one constraint of 30000 terms', one_row(30000), True, ('fileobj',), ['snippet'])
+        huge_case(ctx, cnfgen, 'description of 100000 characters, name of 70000 characters', long_fields(100000, 70000), True, ('name-by-extension',), ['StringIO'], names=True)
+    else:
+        huge_case(ctx, cnfgen, '140000 constraints of 3 terms, coefficients up to 2^64', opb_of(140000, 3, 100000), True, VIAS, ['snippet', 'name', 'StringIO'])
+        huge_case(ctx, cnfgen, '300000 constraints of 4 terms, coefficients up to 2^64', opb_of(300000, 4, 100000), True, ('name', 'stdout'), [])
+        huge_case(ctx, cnfgen, '66000 clauses of 20 literals below 3000000', cnf_of(66000, 20, 2990000, 3000000), False, VIAS, [], header=False)
+        huge_case(ctx, cnfgen, '140000 clauses of 5 literals', cnf_of(140000, 5, 1, 3000), False, ('name', 'StringIO'), ['snippet', 'name-by-extension', 'stdout'])
+        huge_case(ctx, cnfgen, '70000 constraints of 2 terms', opb_of(70000, 2, 500), True, VIAS, ['snippet', 'name-by-extension', 'fileobj'])
+        for w in (30000, 65537, 200000):
+            huge_case(ctx, cnfgen, 'one constraint of %d terms' % w, one_row(w), True, VIAS, ['snippet', 'name'])
+        for k, j in ((100000, 70000), (131073, 131073), (2000000, 1000000)):
+            huge_case(ctx, cnfgen, 'description of %d characters, name of %d characters' % (k, j), long_fields(k, j), True, VIAS, ['snippet', 'StringIO', 'name'], names=True)
+        for i in range(6):
+            m, w = ctx.rng.choice([(66000, 6), (132000, 3), (9000, 100), (35 * 2000, 2), (35 * 2000 + 1, 2), (35 * 2000 - 1, 2)])
+            huge_case(ctx, cnfgen, '%d constraints of %d terms (random instance %d)' % (m, w, i), opb_of(m, w, ctx.rng.choice([9, 300, 70000]),
+                      ctx.rng.sample(COEFS, 4)), True, ctx.rng.sample(VIAS, 2), ctx.rng.sample(['snippet', 'name', 'StringIO', 'stdout'], 2),
+                      header=ctx.rng.random() < 0.7)
+    ctx.note('huge: %.0f s' % (time.time() - t0))
+
+
+# --------------------------------------------------------------------------
+# thresholds: coefficients, degrees, variable numbers, numbers of terms / rows / header fields / names and their lengths
+# at the values where a numeric threshold would bite; exact comparison with the model (the outputs stay small)
+# --------------------------------------------------------------------------
+def build_thresholds(ctx, cnfgen, quick):
+    """[(label, cls, is_opb, thunk, dict(opb=[(header, names)...] | None, latex=bool))]"""
+    from cnfgen.formula.opb import OPB
+    CNF = cnfgen.CNF
+    T = c06.THRESHOLDS
+    out = []
+    PLAIN = dict(opb=[(False, False), (True, True)])
+    NO_NAMES = dict(opb=[(False, False), (True, False)])
+
+    def add(label, cls, is_opb, thunk, only):
+        out.append((label, cls, is_opb, thunk, only))
+        ctx.tally('thresholds kind', cls)
+    # coefficients and degrees: large, negative (normalised by add_constraint), zero
+    for t in T + [10 ** 6 - 1, 10 ** 6, 10 ** 6 + 1, 10 ** 9] + c06.BIGINTS:
+        def coef(t=t):
+            F = OPB()
+            F.add_constraint([(t, 1), (t + 1, -2), (t - 1, 3), '>=', t])
+            F.add_constraint([(-t, 1), (t, -2), (-(t + 1), -3), '>=', -t])
+            F.add_constraint([(t, 1), (-t, 2), '==', 0])
+            F.add_constraint([(1, 1), (t, 2), '<=', t * t])
+            F.add_constraint([(t, -1), (2, 2), '<', -t])
+            F.add_constraint([(0, 1), (t, 3), '>', t - 1])
+            F.add_constraint(['>=', t])
+            F.add_constraint(['==', -t])
+            return F
+        add('coefficients and degrees +-%d' % t, 'thr-coefficient', True, coef, PLAIN)
+    # the number of a variable
+    for t in T + c06.BLOCKS + [2 ** 31, 10 ** 18]:
+        def var(t=t):
+            F = OPB()
+            F.update_variable_number(t)
+            F.add_constraint([(2, t), (3, -t), (1, t - 1), '>=', 2])
+            F.add_constraint([(1, -(t - 1)), (1, 1), '==', 1])
+            return F
+
+        def cvar(t=t):
+            F = CNF()
+            F.update_variable_number(t)
+            F.add_clause([t, -(t - 1), 1])
+            F.add_clause([-t])
+            return F
+        small = t <= 1025
+        add('OPB variables x%d, x%d' % (t, t - 1), 'thr-variable', True, var, dict(opb=PLAIN['opb'] if small else NO_NAMES['opb'], latex=small))
+        add('CNF variables x%d, x%d' % (t, t - 1), 'thr-variable', False, cvar, dict(opb=PLAIN['opb'] if small else NO_NAMES['opb'], latex=small))
+    # the number of terms of a constraint / literals of a clause
+    for w in T + [4096] + ([] if quick else [8192, 30000]):
+        def wide(w=w):
+            F = OPB()
+            F.add_constraint([(1 + i % 3, (-1) ** i * (1 + i % (w - 1))) for i in range(w)] + ['>=', w])
+            F.add_constraint([(1, i + 1) for i in range(w)] + ['==', 1])
+            return F
+
+        def cwide(w=w):
+            return CNF([[(-1) ** i * (1 + i % (w - 1)) for i in range(w)], [1, -1] * (w // 2)])
+        add('constraints of %d terms' % w, 'thr-width', True, wide, dict(opb=NO_NAMES['opb'], latex=w <= 1025))
+        add('clauses of %d literals' % w, 'thr-width', False, cwide, dict(opb=NO_NAMES['opb'], latex=w <= 1025))
+    # the number of rows: OPB lines, LaTeX rows and pages of 35
+    pages = [34, 35, 36, 69, 70, 71, 35 * 7, 35 * 7 + 1, 35 * 29 - 1, 35 * 29, 35 * 29 + 1]
+    for m in sorted(set(T + pages + ([] if quick else [4096, 8192, 35 * 256, 35 * 256 + 1, 35 * 257]))):
+        def rows(m=m):
+            F = OPB()
+            for i in range(m):
+                F.add_constraint([(1 + i % 3, 1 + i % 5), (2, -(1 + (i * 7) % 6)), '>=' if i % 2 else '==', i % 4] if i % 11 else ['>=', i % 3])
+            return F
+
+        def crows(m=m):
+            F = CNF()
+            for i in range(m):
+                F.add_clause([1 + i % 5, -(1 + (i * 7) % 6)] if i % 9 and i != m - 1 else [])
+            return F
+        add('%d constraints' % m, 'thr-rows', True, rows, NO_NAMES)
+        add('%d clauses' % m, 'thr-rows', False, crows, NO_NAMES)
+    # header: number of fields, length of a field; names: number, length
+    for k in T:
+        def fields(k=k):
+            F = OPB()
+            F.add_constraint([(2, 1), (1, -2), '>=', 1])
+            for i in range(k - len(F.header)):
+                F.header['field%d' % i] = 'v%d' % i
+            return F
+        add('header with %d fields' % k, 'thr-header', True, fields, dict(opb=[(True, False)], latex=k in (16, 257)))
+    for t in T + (c06.QUICK_BLOCKS if quick else c06.BLOCKS) + [100000]:
+        def longval(t=t):
+            F = OPB(description='d' * t)
+            if t <= 1025 or not quick:
+                F.header['k' * t] = 'v' * (t - 1) + ' '
+            F.add_constraint([(2, 1), (1, -2), '>=', 1])
+            return F
+        add('header field of %d characters' % t, 'thr-header', True, longval, dict(opb=[(True, False)], latex=t in (256, 257, 65537, 100000) or not quick))
+    for t in T + (c06.QUICK_BLOCKS if quick else c06.BLOCKS) + [70000]:
+        def longname(t=t):
+            F = OPB() if t % 2 else CNF()
+            F.new_variable('y')
+            F.new_variable('n' * t)
+            F.new_variable('u_' + 'm' * (t - 2))
+            F.add_clause([1, -2, -3])
+            return F
+        add('variable name of %d characters' % t, 'thr-name', bool(t % 2), longname, dict(opb=[(False, True)], latex=t <= 1025 or t in (65537, 70000) or not quick))
+    for t in T + [4096] + ([] if quick else [8192, 65537]):
+        def manynames(t=t):
+            F = OPB()
+            F.new_block(t - 2, label='b_{}')
+            F.new_variable('last but one')
+            F.update_variable_number(t)
+            F.add_constraint([(3, t), (2, -(t - 1)), (1, 1), (1, -(t - 2)), '>=', 3])
+            return F
+        add('%d variables with names' % t, 'thr-name', True, manynames, dict(opb=[(False, True), (True, True)], latex=t <= 1025))
+    return out
+
+
+# --------------------------------------------------------------------------
+# shapes: kinds of destination, file names that select (or merely resemble) a format, names outside ASCII
+# --------------------------------------------------------------------------
+def uni_formula(cnfgen, opb):
+    """the formula harness/c06.py UNICODE_CHILD builds in the child process"""
+    from cnfgen.formula.opb import OPB
+    F = (OPB if opb else cnfgen.CNF)(description='caf\xe9 α 数')
+    for nm in c06.UNI_NAMES:
+        F.new_variable(nm)
+    if opb:
+        F.add_constraint([(2, 1), (3, -2), (1, 3), '>=', 2])
+        F.add_constraint([(1, -4), (1, 5), '==', 1])
+    else:
+        F.add_clause([1, -2, 3])
+        F.add_clause([-4, 5])
+    return F
+
+
+def names_shown(text, fmt, labels):
+    """the variable names appear as they are in the varname comments of an OPB text"""
+    if fmt != 'opb':
+        return True
+    lines = text.split('\n')
+    return all(('* varname x%d %s' % (i + 1, nm)) in lines for i, nm in enumerate(labels))
+
+
+def judge_written(ctx, stream, descr, text, fmt, F, is_opb, names):
+    """content of a text whose format is already known to be the documented one"""
+    n, mem = F.number_of_variables(), mem_constraints(F, is_opb)
+    if fmt == 'opb':
+        ok = direct_opb(ctx, descr, text, n, mem, is_opb)
+        if ok and names and not names_shown(text, fmt, list(F.all_variable_labels())):
+            ctx.violation('counterexample', 'a variable name is not written as it is in the varname comments of the OPB text',
+                          dict(input=descr, text_start=text[:400]), True, site='to_opb_file', cls='unicode-name-changed')
+    elif fmt == 'latex':
+        direct_latex(ctx, descr, text, mem, is_opb, list(F.all_variable_labels(default_label_format='x_{}')), True)
+
+
+def run_shapes(ctx, cnfgen, quick):
+    import json
+    import os
+    import shutil
+    import tempfile
+    import time
+    from concurrent.futures import ThreadPoolExecutor
+    from cnfgen.formula.opb import OPB
+    CNF = cnfgen.CNF
+    t0 = time.time()
+    tmp = tempfile.mkdtemp(prefix='c12shapes-')
+
+    def plain_opb():
+        F = OPB(description='plain')
+        F.add_constraint([(2, 3), (1, -1), (10 ** 18, 4), '>=', 2])
+        F.add_constraint(['==', -1])
+        F.add_constraint([(1, 1), (2 ** 31, -2), '==', 2])
+        F.update_variable_number(6)
+        return F
+    forms = [('OPB, names outside ASCII', True, lambda: uni_formula(cnfgen, True), True), ('CNF, names outside ASCII', False, lambda: uni_formula(cnfgen, False), True),
+             ('OPB, plain', True, plain_opb, False), ('CNF, plain', False, lambda: CNF([[1, -2], [], [2, 3]], description='plain'), False)]
+    # ---- (1) every kind of destination x explicit / implicit format
+    for flabel, is_opb, mk, names in forms:
+        F = mk()
+        descr = dict(formula=flabel, output='to_latex()', names=list(F.all_variable_labels(default_label_format='x_{}')))
+        ctx.count('shapes-destination', (flabel, 'to_latex()'), True, sample=descr)
+        direct_latex(ctx, descr, F.to_latex(), mem_constraints(F, is_opb), is_opb, descr['names'], False)
+        for dlabel, op, seen in c06.destinations(tmp, quick, extra_names=(b'bytes.tex', b'bytes.opb', 'a.cnf.tex', 'cover_vertex.opb')):
+            for request in (None, 'opb', 'latex'):
+                expected = documented_format('x' if seen is None or seen == 0 else seen, request, is_opb)
+                if expected == 'dimacs':
+                    continue            # property C06
+                descr = dict(formula=flabel, destination=dlabel, fileformat=request, export_varnames=names,
+                             names=list(F.all_variable_labels()) if names else None)
+                ctx.count('shapes-destination', (flabel, dlabel, request), True, sample=descr)
+                ctx.tally('shapes destination', dlabel.split(' named ')[0])
+                dest, close = op()
+                try:
+                    F.to_file(dest, fileformat=request, export_varnames=names)
+                    exc = None
+                except Exception as e:  # noqa
+                    exc = e
+                try:
+                    text = close()
+                except Exception as e:  # noqa
+                    text, exc = None, exc or e
+                if exc is not None:
+                    ctx.disagreements_checked += 1
+                    guessing = request is None and isinstance(exc, TypeError) and not isinstance(seen, str) and seen is not None
+                    ctx.violation('counterexample', 'to_file(<%s>, fileformat=%r) raised %s: %s' % (dlabel, request, type(exc).__name__, str(exc)[:100]),
+                                  dict(input=descr, implementation=[type(exc).__name__, str(exc)[:160]]), True,
+                                  site='guess_output_format' if guessing else 'to_file',
+                                  cls='file-object-name-not-a-string' if guessing else 'raises-' + type(exc).__name__)
+                    continue
+                got = c06.format_of_text(text)
+                if got != expected:
+                    ctx.disagreements_checked += 1
+                    ctx.violation('counterexample', 'to_file(<%s>, fileformat=%r) of %s wrote %s, the documented format is %s' %
+                                  (dlabel, request, 'an OPB object' if is_opb else 'a CNF object', got, expected),
+                                  dict(input=descr, text_start=text[:200], documented='guess_output_format / OPB.to_file: explicit request, else the name ends in .tex / .opb, else the default of the class'),
+                                  True, site='guess_output_format',
+                                  cls='bytes-name-extension-ignored' if isinstance(seen, bytes) and request is None else 'format-%s-instead-of-%s' % (got, expected))
+                    continue
+                judge_written(ctx, 'shapes-destination', descr, text, expected, F, is_opb, names)
+    # ---- (2) file names: to_file(name), `cnfgen -o name`, `pbgen -o name`, with and without an explicit format
+    from cnfgen.clitools.cnfgen import cli as cnfgen_cli
+    from cnfgen.clitools.pbgen import cli as pbgen_cli
+    Fc = cnfgen_cli(['cnfgen', 'php', '3', '2'], mode='formula')
+    Fo = pbgen_cli(['pbgen', 'php', '3', '2'], mode='formula')
+    table = [(nm, 'dimacs') for nm in c06.DIMACS_NAMES] + [(nm, 'latex') for nm in c06.LATEX_NAMES] + [(nm, 'opb') for nm in c06.OPB_NAMES]
+    def fmt_of(nm, request, how):
+        if how == 'pbgen -o name':       # usage of pbgen: "--output-format {latex,opb} ... (default: opb)": the name plays no role
+            return request or 'opb'
+        return documented_format(nm, request, how.startswith('OPB'))
+    jobs = []
+    for k, (nm, _by) in enumerate(table):
+        for request in (None, 'latex', 'opb'):
+            for how in ('OPB.to_file(name)', 'CNF.to_file(name)', 'cnfgen -o name', 'pbgen -o name'):
+                if fmt_of(nm, request, how) == 'dimacs':
+                    continue
+                if how.endswith('-o name') and quick and not (request is None and (k % 5 == 0 or nm in ('formula_opb', 'cover_vertex', 'y.tex', 'y.opb', 'a.tex.opb'))):
+                    continue
+                if quick and request is not None and (k + len(how)) % 3:
+                    continue
+                jobs.append((nm, request, how))
+    roots = {}
+    for how in ('OPB.to_file(name)', 'CNF.to_file(name)', 'cnfgen -o name', 'pbgen -o name'):
+        for request in (None, 'latex', 'opb'):
+            roots[(how, request)] = os.path.join(tmp, 'names-%s-%s' % (how.split('(')[0].replace(' ', ''), request))
+            for nm, _ in table:
+                os.makedirs(os.path.dirname(os.path.join(roots[(how, request)], nm)), exist_ok=True)
+
+    def child(prog, argv):
+        import subprocess
+        env = dict(os.environ, PYTHONPATH=lib.REPO, CNFGEN_VERIF='1')
+        code = 'import sys; sys.argv = %r; from cnfgen.clitools.%s import main; main()' % ([prog] + argv, prog)
+        r = subprocess.run([lib.PY, '-W', 'ignore', '-c', code], cwd=lib.REPO, env=env, stdout=subprocess.PIPE, stderr=subprocess.PIPE, timeout=300)
+        return r.returncode, r.stderr.decode('utf-8', 'replace')
+
+    def do(job):
+        nm, request, how = job
+        p = os.path.join(roots[(how, request)], nm)
+        if how.endswith('to_file(name)'):
+            try:
+                (Fo if how.startswith('OPB') else Fc).to_file(p, fileformat=request)
+                res = (0, '')
+            except Exception as e:  # noqa
+                res = (type(e).__name__, str(e)[:160])
+        else:
+            code, err = child(how.split(' ')[0], ['-o', p] + (['-of', request] if request else []) + ['php', '3', '2'])
+            res = (code, err[-300:])
+        try:
+            with open(p, 'r', newline='', encoding='utf-8') as f:
+                text = f.read()
+        except OSError:
+            text = None
+        return res, text
+    cli_jobs = [j for j in jobs if j[2].endswith('-o name')]
+    with ThreadPoolExecutor(max_workers=4) as ex:
+        cli_res = dict(zip(cli_jobs, ex.map(do, cli_jobs)))
+    for job in jobs:
+        nm, request, how = job
+        is_opb = how in ('OPB.to_file(name)', 'pbgen -o name')
+        res, text = cli_res[job] if job in cli_res else do(job)
+        expected = fmt_of(nm, request, how)
+        descr = dict(file_name=nm, fileformat=request, how=how, formula='php 3 2')
+        ctx.count('shapes-file-name', job, True, sample=descr)
+        ctx.tally('shapes file name: documented format', '%s%s' % (expected, ' (explicit)' if request else ' (by name)' if nm.endswith(('.tex', '.opb')) else ' (default of the class)'))
+        ctx.tally('shapes file name: how', how)
+        if res[0] != 0 or text is None:
+            ctx.disagreements_checked += 1
+            ctx.violation('counterexample', '%s with the file name %r%s fails: %r' % (how, nm, ' and format %s' % request if request else '', res),
+                          dict(input=descr, implementation=list(res)), True, site='guess_output_format', cls='raises-%s' % (res[0],))
+            continue
+        got = c06.format_of_text(text)
+        if got != expected:
+            ctx.disagreements_checked += 1
+            ctx.violation('counterexample', '%s with the file name %r%s wrote %s; the documented format is %s (an explicit request wins, else the '
+                          'name must END in .tex / .opb)' % (how, nm, ' and format %s' % request if request else '', got, expected),
+                          dict(input=descr, text_start=text[:200]), True, site='guess_output_format', cls='format-%s-instead-of-%s' % (got, expected))
+            continue
+        judge_written(ctx, 'shapes-file-name', descr, text, expected, Fo if is_opb else Fc, is_opb, False)
+    # ---- (3) names outside ASCII written by a process whose locale is / is not UTF-8
+    runs = []
+    for (en, ex_) in c06.CHILD_ENVS:
+        for fmt in ('opb', 'latex'):
+            runs.append((fmt, 'files', en, ex_, 'cnf'))
+            for kind in ('cnf', 'opb'):
+                if en == 'default' or not quick:
+                    runs.append((fmt, 'stdout', en, ex_, kind))
+    with ThreadPoolExecutor(max_workers=4) as ex:
+        results = list(ex.map(lambda r: c06.unicode_child(tmp, r[0], r[1], r[2], r[3], r[4]), runs))
+    mem_forms = {'cnf': uni_formula(cnfgen, False), 'opb': uni_formula(cnfgen, True)}
+    for (fmt, mode, en, _x, kind0), (d, code, out, err) in zip(runs, results):
+        base = dict(names=c06.UNI_NAMES, format=fmt, destination=mode, environment=en)
+        if mode == 'stdout':
+            descr = dict(base, formula=kind0)
+            ctx.count('shapes-unicode-process', (fmt, mode, en, kind0), True, sample=descr)
+            if code != 0:
+                if 'UnicodeEncodeError' in err and en != 'default':
+                    ctx.tally('shapes unicode: standard output of a process in an ASCII locale', 'UnicodeEncodeError (the encoding of that stream is the caller\'s)')
+                    continue
+                ctx.violation('counterexample', 'writing names outside ASCII to the standard output (%s, %s) fails' % (fmt, en),
+                              dict(input=descr, implementation=[code, err[-300:]]), True, site='to_file', cls='unicode-stdout')
+                continue
+            try:
+                text = out.decode('utf-8')
+            except UnicodeDecodeError:
+                ctx.violation('counterexample', 'the %s text written to the standard output (%s) is not UTF-8' % (fmt, en),
+                              dict(input=descr, stdout_bytes=repr(out[:300])), True, site='to_file', cls='unicode-file-encoding')
+                continue
+            judge_written(ctx, 'shapes-unicode-process', descr, text, fmt, mem_forms[kind0], kind0 == 'opb', True)
+            continue
+        try:
+            res = json.loads(out.decode('utf-8'))
+        except Exception:  # noqa
+            ctx.violation('counterexample', 'the process writing names outside ASCII (%s, %s) died' % (fmt, en), dict(input=base, implementation=[code, err[-400:]]),
+                          True, site='to_file', cls='unicode-process')
+            continue
+        ext = {'opb': 'opb', 'latex': 'tex'}[fmt]
+        for kind in ('cnf', 'opb'):
+            for key, fname in ((kind + ':name', kind + '-name.out'), (kind + ':name-by-extension', kind + '-ext.' + ext), (kind + ':fileobj', kind + '-fileobj.out'),
+                               (kind + ':non-ascii-path', None)):
+                descr = dict(base, formula=kind, destination=key)
+                if key not in res:
+                    continue
+                ctx.count('shapes-unicode-process', (fmt, key, en), True, sample=descr)
+                if res[key] != 'ok':
+                    ctx.disagreements_checked += 1
+                    ctx.violation('counterexample', 'to_file (%s, %s) of a formula with names outside ASCII raised %s in a process with %s' % (key, fmt, res[key], en),
+                                  dict(input=descr, implementation=res[key]), True, site='to_file', cls='unicode-raises-%s' % res[key][0])
+                    continue
+                if fname is None:
+                    cands = [f for f in os.listdir(os.fsencode(d)) if f.startswith(kind.encode() + b'-') and f.endswith(b'.' + ext.encode()) and f != (kind + '-ext.' + ext).encode()]
+                    pth = os.path.join(os.fsencode(d), cands[0]) if cands else None
+                else:
+                    pth = os.path.join(d, fname)
+                try:
+                    with open(pth, 'rb') as f:
+                        text = f.read().decode('utf-8')
+                except Exception as e:  # noqa
+                    ctx.disagreements_checked += 1
+                    ctx.violation('counterexample', 'the %s file written (%s) with names outside ASCII by a process with %s is not UTF-8 text' % (fmt, key, en),
+                                  dict(input=descr, error=str(e)[:100]), True, site='to_file', cls='unicode-file-encoding')
+                    continue
+                got = c06.format_of_text(text)
+                if got != fmt:
+                    ctx.violation('counterexample', 'to_file (%s) wrote %s instead of %s' % (key, got, fmt), dict(input=descr, text_start=text[:200]), True,
+                                  site='guess_output_format', cls='format-%s-instead-of-%s' % (got, fmt))
+                    continue
+                judge_written(ctx, 'shapes-unicode-process', descr, text, fmt, mem_forms[kind], kind == 'opb', True)
+    shutil.rmtree(tmp, ignore_errors=True)
+    ctx.note('shapes: %.0f s' % (time.time() - t0))
+
+
+documented_format = c06.documented_format
+
+
+# --------------------------------------------------------------------------
+# history: ONE formula object built by a random sequence of public API calls and rendered again and again (OPB text,
+# LaTeX rows, LaTeX document, in turn), with edits in between and destinations that are reused
+# --------------------------------------------------------------------------
+def run_history(ctx, cnfgen, quick):
+    import random
+    import time
+    from cnfgen.formula.opb import OPB
+    CNF = cnfgen.CNF
+    t0 = time.time()
+    snaps = []
+    paths = {'opb': c06.tmp_path('history.opb'), 'latex': c06.tmp_path('history.tex')}
+    for run_no in range(30 if quick else 400):
+        r = random.Random(ctx.rng.randrange(1 << 30))
+        is_opb = run_no % 3 != 0
+        F = (OPB if is_opb else CNF)(description=r.choice(['history %d' % run_no, 'two\nlines', 'under_score']))
+        log = []
+        big_run = run_no % 6 == 2
+        for step in range(r.randint(4, 12)):
+            n = F.number_of_variables()
+            op = r.choice(['add_clause', 'add_constraint', 'add_constraint', 'cardinality', 'parity', 'raise', 'raise-to-threshold', 'new_variable',
+                           'new_block', 'header-set', 'header-del', 'empty', 'many-rows', 'big-coefficient'])
+
+            def lits(k):
+                return [r.choice([1, -1]) * r.randint(1, n) for _ in range(k)]
+            try:
+                if op == 'add_clause' and n:
+                    F.add_clause(lits(r.choice([1, 2, 3, 17, 40])))
+                elif op == 'add_constraint' and n and is_opb:
+                    F.add_constraint([(r.randint(-4, 6), l) for l in lits(r.choice([0, 1, 2, 3, 17]))] + [r.choice(['>=', '==', '<=', '<', '>']), r.randint(-5, 9)])
+                elif op == 'big-coefficient' and n and is_opb:
+                    t = r.choice(COEFS[3:])
+                    F.add_constraint([(t, lits(1)[0]), (-t - 1, lits(1)[0]), (1, lits(1)[0]), r.choice(['>=', '==', '<=']), r.choice([t, -t, 0])])
+                    op += ' %d' % t
+                elif op == 'cardinality' and n and is_opb:
+                    getattr(F, r.choice(['cardinality_geq', 'cardinality_leq', 'cardinality_eq']))(lits(r.randint(1, 4)), r.randint(0, 3))
+                elif op == 'parity' and n and is_opb:
+                    F.add_parity(sorted(set(abs(l) for l in lits(r.randint(1, 3)))), r.randint(0, 1))
+                elif op == 'raise':
+                    F.update_variable_number(n + r.choice([2, 3, 5, 10]))
+                elif op == 'raise-to-threshold':
+                    t = r.choice([x for x in c06.THRESHOLDS if x > n] or [n + 2])
+                    if t <= 300 or big_run:
+                        F.update_variable_number(t)
+                    op += ' %d' % t
+                elif op == 'new_variable':
+                    F.new_variable(r.choice(['v', 'w_%d' % step, 'u^%d_' % step, 'caf\xe9%d' % step, 'k']) + str(run_no * 100 + step))
+                elif op == 'new_block':
+                    F.new_block(r.randint(1, 3), r.randint(1, 4), label='b%d_{{{{{{}},{{}}}}}}' % step)
+                elif op == 'header-set':
+                    F.header[r.choice(['note', 'k%d' % step, 'description'])] = r.choice(['v', 'x' * 300, 'a\r\nb', str(step), 'under_score'])
+                elif op == 'header-del' and len(F.header) > 1:
+                    k = r.choice([k for k in F.header if k != 'description'] or ['description'])
+                    if k != 'description':
+                        del F.header[k]
+                elif op == 'empty':
+                    if is_opb and r.random() < 0.5:
+                        F.add_constraint(['>=', r.randint(-1, 1)])
+                    else:
+                        F.add_clause([])
+                elif op == 'many-rows' and n and big_run:
+                    m = r.choice([34, 35, 36, 70, 71, 256, 257])
+                    for i in range(m):
+                        F.add_clause([1 + i % n, -(1 + (i * 5) % n)])
+                    op += ' %d' % m
+                else:
+                    continue
+            except ValueError as e:
+                op += ' (refused: %s)' % str(e)[:40]
+            log.append(op)
+            ctx.tally('history operation', op.split(' ')[0])
+            if r.random() < 0.5 or step == 0:
+                n = F.number_of_variables()
+                labels = list(F.all_variable_labels())
+                tex_labels = list(F.all_variable_labels(default_label_format='x_{}'))
+                c = dict(label='history %d step %d' % (run_no, step), cls='history', is_opb=is_opb, F=F, n=n, labels=labels, tex_labels=tex_labels,
+                         mem=mem_constraints(F, is_opb), hdr_items=c06.header_items(F), history=list(log))
+                what = r.choice(['opb', 'opb', 'latex', 'both'])
+                try:
+                    if what in ('opb', 'both'):
+                        via = r.choice(['StringIO', 'name', 'name', 'fileobj', 'stdout'])
+                        c['header'], c['names'], c['via'] = r.random() < 0.7, r.random() < 0.5, via
+                        c['opb_text'] = c06.write_via(F, via, c['header'], c['names'], paths['opb'], fmt='opb')
+                        ctx.tally('history via', 'opb ' + via)
+                    if what in ('latex', 'both'):
+                        c['snippet'] = F.to_latex()
+                        docs = []
+                        for header in (False, True):
+                            extra = '' if header else 'Some extra text & more.\n'
+                            via = r.choice(['StringIO', 'name', 'fileobj', 'stdout'])
+                            docs.append((header, extra, c06.write_via(F, via, header, False, paths['latex'], fmt='latex', extra_text=extra), None))
+                            ctx.tally('history via', 'latex ' + via)
+                        c['docs'] = docs
+                except Exception as e:  # noqa
+                    ctx.violation('counterexample', 'rendering a formula after a sequence of edits raised %s' % type(e).__name__,
+                                  dict(input=dict(history=log, kind='OPB' if is_opb else 'CNF'), implementation=[type(e).__name__, str(e)[:160]]), True,
+                                  site='to_file', cls='history-raises-' + type(e).__name__)
+                    continue
+                snaps.append(c)
+    run_small(ctx, cnfgen, quick, snaps, 'history-')
+    ctx.note('history: %.0f s' % (time.time() - t0))
 
 
 def build(ctx, cnfgen, quick):
@@ -268,8 +1077,31 @@ def build(ctx, cnfgen, quick):
 def run(ctx):
     cnfgen = import_impl()
     quick = ctx.tier == 'quick'
+    # the large cases first, as a corpus (notes/LARGE_STREAMS.md)
+    run_huge(ctx, cnfgen, quick)
+    run_small(ctx, cnfgen, quick, build_thresholds(ctx, cnfgen, quick), 'thresholds-')
+    run_shapes(ctx, cnfgen, quick)
+    run_history(ctx, cnfgen, quick)
+    run_small(ctx, cnfgen, quick, build(ctx, cnfgen, quick), '')
+    ctx.assumptions.append('LaTeX decoder theorem: names without white space; characters above 255 outside the model')
+    ctx.assumptions.append('outputs of several megabytes: the statement is checked directly on the text (independent OPB reader and LaTeX row '
+                           'decoder written in Python, tied to the model\'s reader / decoder on every small case of the run)')
+    if c06.TMPDIR:
+        import shutil
+        shutil.rmtree(c06.TMPDIR, ignore_errors=True)
+        c06.TMPDIR = None
+
+
+def run_small(ctx, cnfgen, quick, formulas, pre):
+    """formulas: [(label, class, is_opb, thunk)] or [(label, class, is_opb, thunk, dict(opb=[(header, names)...], latex=bool))] or
+    prewritten snapshots (history) as dicts; pre: prefix of the stream names"""
     cases = []
-    for label, cls, is_opb, thunk in build(ctx, cnfgen, quick):
+    for item in formulas:
+        if isinstance(item, dict):
+            cases.append(item)
+            continue
+        label, cls, is_opb, thunk = item[:4]
+        only = item[4] if len(item) > 4 else {}
         try:
             F = thunk()
         except Exception as e:  # noqa
@@ -277,20 +1109,31 @@ def run(ctx):
             continue
         n = F.number_of_variables()
         if n > 10 ** 6:
-            continue
-        labels = list(F.all_variable_labels())
-        tex_labels = list(F.all_variable_labels(default_label_format='x_{}'))
-        ctx.tally('formula class', cls)
-        ctx.tally('rows', '0' if len(F) == 0 else '1-34' if len(F) < 35 else '35' if len(F) == 35 else '36-70' if len(F) <= 70 else '71+')
-        cases.append(dict(label=label, cls=cls, is_opb=is_opb, F=F, n=n, labels=labels, tex_labels=tex_labels))
+            if not only:
+                continue
+            # too many variables to list their names: OPB without names only
+            only = dict(opb=[o for o in (only.get('opb') or [(False, False), (True, False)]) if not o[1]], latex=False)
+            labels, tex_labels = [], []
+        else:
+            labels = list(F.all_variable_labels())
+            tex_labels = list(F.all_variable_labels(default_label_format='x_{}'))
+        ctx.tally(pre + 'formula class', cls)
+        ctx.tally(pre + 'rows', '0' if len(F) == 0 else '1-34' if len(F) < 35 else '35' if len(F) == 35 else '36-70' if len(F) <= 70 else '71+')
+        cases.append(dict(label=label, cls=cls, is_opb=is_opb, F=F, n=n, labels=labels, tex_labels=tex_labels, only=only))
 
     # ---------------- OPB text ----------------
     jobs = []
     for c in cases:
         F = c['F']
+        if 'mem' in c:               # a snapshot written by the caller (history stream)
+            if 'opb_text' in c:
+                jobs.append(dict(c=c, header=c['header'], names=c['names'], text=c['opb_text'], wexc=None))
+            continue
         for header in (False, True):
             for names in (False, True):
                 if names and not all(c06.latin1(x) for x in c['labels']):
+                    continue
+                if c.get('only', {}).get('opb') is not None and (header, names) not in c['only']['opb']:
                     continue
                 s = io.StringIO()
                 try:
@@ -302,10 +1145,12 @@ def run(ctx):
     reqs = []
     for j in jobs:
         c = j['c']
-        margs = (c06.opt(c06.header_for_model(c['F']) if j['header'] else None),
-                 c06.opt(c['labels'] if j['names'] else None), model_formula(c['F'], c['is_opb']))
+        margs = (c06.opt(hdr_model(c) if j['header'] else None),
+                 c06.opt(c['labels'] if j['names'] else None), mformula(c))
         reqs.append(cmd('print_opb', *margs))
-        reqs.append(cmd('parse_opb', j['text'] if j['text'] is not None and c06.latin1(j['text']) else ''))
+        # the model's reader is quadratic in the number of terms of a constraint: beyond 600 terms the harness's reader is used
+        j['wide'] = any(len(r[0] if c['is_opb'] else r) > 600 for r in margs[2][2])
+        reqs.append(cmd('parse_opb', j['text'] if j['text'] is not None and c06.latin1(j['text']) and not j['wide'] else ''))
         reqs.append(cmd('print_opb_as_found', *margs))
     reps3 = ctx.model.batch(reqs)
     reps = [x for i, x in enumerate(reps3) if i % 3 != 2]
@@ -314,21 +1159,36 @@ def run(ctx):
         c = j['c']
         F = c['F']
         mp, mr = reps[2 * k], reps[2 * k + 1]
+        if j['wide'] and j['text'] is not None:
+            mr = py_parse_opb(j['text'])
+            ctx.tally(pre + 'opb reader', 'harness (a constraint of more than 600 terms)')
+        mem = c['mem'] if 'mem' in c else mem_constraints(F, c['is_opb'])
+        nrows = len(mem)
         descr = dict(formula=c['label'], kind='OPB' if c['is_opb'] else 'CNF', n=c['n'],
-                     constraints=mem_constraints(F, c['is_opb']) if len(F) <= 12 else '%d rows' % len(F),
+                     constraints=mem if (nrows <= 12 and len(str(mem)) < 600) else '%d rows' % nrows,
                      export_header=j['header'], export_varnames=j['names'],
-                     header=[[str(a), str(b)] for a, b in F.header.items()] if j['header'] else None,
-                     names=c['labels'][:12] if j['names'] else None)
-        ctx.count('opb', (c['label'], j['header'], j['names']), len(F) > 0, sample=dict(descr, constraints='...'))
-        ctx.tally('opb options', 'header=%s names=%s' % (j['header'], j['names']))
+                     header=[[c06.clip(a), c06.clip(b)] for a, b in hdr_items(c)[:40]] if j['header'] else None,
+                     names=[c06.clip(x) for x in c['labels'][:12]] if j['names'] else None)
+        if c.get('history'):
+            descr['history'] = c['history']
+            descr['via'] = c.get('via')
+        ctx.count(pre + 'opb', (c['label'], j['header'], j['names']), nrows > 0, sample=dict(descr, constraints='...'))
+        ctx.tally(pre + 'opb options', 'header=%s names=%s' % (j['header'], j['names']))
         if j['text'] is None:
             ctx.violation('counterexample', 'writing a formula to OPB raised %s' % j['wexc'][0], dict(input=descr, implementation=j['wexc']),
                           True, site='to_opb_file', cls='raises-' + j['wexc'][0])
             continue
         text = j['text']
-        broken = c06.has_break(F, j['header'], j['names'], c['labels'])
-        want = expected_read(F, c['is_opb'])
-        defect = opb_shape_defect(text, c['n'], len(F))
+        broken = bool((j['header'] and any(b in k or b in v for k, v in hdr_items(c) for b in c06.BREAKS)) or
+                      (j['names'] and any(b in lab for lab in c['labels'] for b in c06.BREAKS)))
+        want = expected_read_mem(c['n'], mem, c['is_opb'])
+        defect = opb_shape_defect(text, c['n'], nrows)
+        # the harness's own reader (used alone on the huge outputs) must agree with the model's reader on every small text
+        if c06.latin1(text) and not is_error(mr) and not j['wide']:
+            pr = py_parse_opb(text)
+            if (pr[0] == 'ok') != (mr[0] == 'ok') or (pr[0] == 'ok' and pr != mr):
+                ctx.violation('correspondence', 'the OPB reader of the harness (py_parse_opb) and the reader of the model (OpbText.v parse_opb) differ on a text',
+                              dict(input=descr, text=text[:400], harness=pr[:2], model=mr[:2]), False, site='py_parse_opb', cls='differs')
         read_ok = (mr == want) if c06.latin1(text) else None
         if is_error(mp) or is_error(mr):
             ctx.violation('correspondence', 'model error', dict(input=descr, model=[mp, mr]), False, site='model-error', cls='opb')
@@ -360,6 +1220,13 @@ def run(ctx):
     jobs = []
     for c in cases:
         F = c['F']
+        if 'mem' in c and 'snippet' not in c:
+            continue
+        if c.get('only', {}).get('latex') is False:
+            continue
+        if 'snippet' in c:           # a snapshot written by the caller (history stream)
+            jobs.append(dict(c=c, snippet=c['snippet'], sexc=None, docs=c['docs']))
+            continue
         if not all(c06.latin1(x) for x in c['tex_labels']) or not c06.latin1(str(F.header.get('description', ''))):
             ctx.tally('latex skipped', 'non latin-1 name or title')
             continue
@@ -380,15 +1247,17 @@ def run(ctx):
     reqs = []
     for j in jobs:
         c = j['c']
-        f = model_formula(c['F'], c['is_opb'])
+        f = mformula(c)
         reqs.append(cmd('print_latex', c['tex_labels'], -1, True, f))
         reqs.append(cmd('formula_lrows', c['tex_labels'], f))
         reqs.append(cmd('rows_of_latex', c['is_opb'], j['snippet'] or ''))
-        reqs.append(cmd('latex_litrows', c['is_opb'], j['snippet'] or ''))
+        # the model's literal decoder is quadratic in the length of a name: beyond 2000 characters the harness's decoder is used
+        j['longname'] = any(len(nm) > 2000 for nm in c['tex_labels'])
+        reqs.append(cmd('latex_litrows', c['is_opb'], (j['snippet'] or '') if not j['longname'] else ''))
         reqs.append(cmd('formula_litrows', c['tex_labels'], f))
         for (header, extra, doc, _) in j['docs']:
-            reqs.append(cmd('print_latex_document', str(c['F'].header['description']),
-                            c06.opt(c06.header_for_model(c['F']) if header else None), extra, c['tex_labels'], f))
+            reqs.append(cmd('print_latex_document', dict(hdr_items(c)).get('description', ''),
+                            c06.opt(hdr_model(c) if header else None), extra, c['tex_labels'], f))
             reqs.append(cmd('print_latex', c['tex_labels'], 35, False, f))
     reps = iter(ctx.model.batch(reqs))
     for j in jobs:
@@ -396,11 +1265,20 @@ def run(ctx):
         F = c['F']
         msnip, mrows, drows = next(reps), next(reps), next(reps)
         dlits, mlits = next(reps), next(reps)
-        descr = dict(formula=c['label'], kind='OPB' if c['is_opb'] else 'CNF', n=c['n'], rows=len(F),
-                     constraints=mem_constraints(F, c['is_opb']) if len(F) <= 12 else '%d rows' % len(F), names=c['tex_labels'][:12])
+        if j['longname'] and j['snippet'] is not None:
+            pl = py_latex_rows(j['snippet'], c['is_opb'])
+            dlits = [pl[0], [['some', r] if r is not None else None for r in pl[1]]]
+            ctx.tally(pre + 'latex literal decoder', 'harness (a name of more than 2000 characters)')
+        mem = c['mem'] if 'mem' in c else mem_constraints(F, c['is_opb'])
+        nrows = len(mem)
+        F = Rows(mem)                 # the rows as they were when the text was written
+        descr = dict(formula=c['label'], kind='OPB' if c['is_opb'] else 'CNF', n=c['n'], rows=nrows,
+                     constraints=mem if (nrows <= 12 and len(str(mem)) < 600) else '%d rows' % nrows, names=[c06.clip(x) for x in c['tex_labels'][:12]])
+        if c.get('history'):
+            descr['history'] = c['history']
         names_ok = not any(ch.isspace() for nm in c['tex_labels'] for ch in nm)
-        ctx.count('latex-snippet', c['label'], len(F) > 0, sample=dict(descr, constraints='...'))
-        ctx.tally('latex names without white space', names_ok)
+        ctx.count(pre + 'latex-snippet', c['label'], nrows > 0, sample=dict(descr, constraints='...'))
+        ctx.tally(pre + 'latex names without white space', names_ok)
         if j['snippet'] is None:
             if msnip is None and j['sexc'][0] == 'KeyError':
                 ctx.violation('counterexample', 'to_latex() raises KeyError: a literal of the formula has no variable label',
@@ -433,7 +1311,13 @@ def run(ctx):
         except IndexError:
             want_lits = None
         if names_ok and decodable and want_lits is not None:
-            ctx.count('latex-literals', c['label'], len(F) > 0)
+            ctx.count(pre + 'latex-literals', c['label'], len(F) > 0)
+            # the harness's own row decoder (used alone on the huge outputs) must agree with the model's decoder on every small text
+            if not j['longname'] and not any(nm[:1].isdigit() or ' + ' in nm or '\\lor' in nm or nm == '' or not balanced(nm) for nm in c['tex_labels']):
+                pl = py_latex_rows(j['snippet'], c['is_opb'])
+                if pl[:2] != [dlits[0], [r[1] if r is not None and r != 'none' else None for r in dlits[1]]]:
+                    ctx.violation('correspondence', 'the LaTeX row decoder of the harness (py_latex_rows) and the decoder of the model (Latex.v latex_litrows) differ',
+                                  dict(input=descr, text=j['snippet'][:400], harness=str(pl)[:300], model=str(dlits)[:300]), False, site='py_latex_rows', cls='differs')
             if dlits != [len(F) == 0, [['some', r] for r in want_lits]]:
                 ctx.disagreements_checked += 1
                 bad = next((i for i, (a, b) in enumerate(zip(dlits[1], want_lits)) if a != ['some', b]), None)
@@ -446,15 +1330,19 @@ def run(ctx):
                               dict(input=descr, model=mlits, harness=want_lits), False, site='Latex.formula_litrows', cls='differs')
         for (header, extra, doc, dexc) in j['docs']:
             mdoc, mbody = next(reps), next(reps)
-            ctx.count('latex-document', (c['label'], header), len(F) > 0)
+            ctx.count(pre + 'latex-document', (c['label'], header), len(F) > 0)
             if doc is None:
                 ctx.violation('counterexample', 'writing the LaTeX document raised %s' % dexc[0], dict(input=descr, implementation=dexc), True,
                               site='to_latex_document', cls='raises-' + dexc[0])
                 continue
             if names_ok and decodable and want_lits is not None and not header:
                 start = doc.find('\\begin{align}')
-                lits = ctx.model.call(Sym('latex_litrows'), c['is_opb'], doc[start:doc.rfind('\\end{document}')] if start >= 0 else '')
-                ctx.count('latex-document-literals', c['label'], len(F) > 0)
+                if j['longname']:
+                    pl = py_latex_rows(doc[start:doc.rfind('\\end{document}')] if start >= 0 else '', c['is_opb'])
+                    lits = [pl[0], [['some', r] if r is not None else None for r in pl[1]]]
+                else:
+                    lits = ctx.model.call(Sym('latex_litrows'), c['is_opb'], doc[start:doc.rfind('\\end{document}')] if start >= 0 else '')
+                ctx.count(pre + 'latex-document-literals', c['label'], len(F) > 0)
                 if lits != [len(F) == 0, [['some', r] for r in want_lits]]:
                     ctx.disagreements_checked += 1
                     ctx.violation('counterexample', 'the LaTeX document (35 rows per block) does not show the literals of the formula in memory',
@@ -475,4 +1363,3 @@ def run(ctx):
                     ctx.violation('correspondence', 'LaTeX document differs from the model (Latex.v print_latex_document)',
                                   dict(input=descr, export_header=header, first_difference_at=i, implementation=doc[max(0, i - 60):i + 80],
                                        model=(mdoc[1][max(0, i - 60):i + 80] if mdoc else None)), False, site='to_latex_document', cls='text-differs')
-    ctx.assumptions.append('LaTeX decoder theorem: names without white space; characters above 255 outside the model')
